@@ -134,6 +134,13 @@ inline EdgeList family(const std::string &spec) {
     if (t[0] == "petersen") return petersen();
     if (t[0] == "cycle") return cycle_graph(I(1));
     if (t[0] == "brick") return brick(I(1), I(2));
+    if (t[0] == "thetac") {   // thetac:E:L - terminals 0 and 1 joined directly (edge #0) and by E disjoint paths of L edges; a chord from the
+                              // first inner vertex of every path to terminal 1. Many non-tree edges whose closing paths compete for edge #0.
+        EdgeList g; g.n = 2; int E = I(1), L = std::max(2, I(2));
+        g.e.push_back({0, 1});
+        for (int i = 0; i < E; ++i) { int prev = 0, first = -1; for (int j = 1; j < L; ++j) { int x = g.n++; if (first < 0) first = x; g.e.push_back({std::min(prev, x), std::max(prev, x)}); prev = x; } g.e.push_back({1, prev}); if (L >= 3) g.e.push_back({1, first}); }
+        return g;
+    }
     if (t[0] == "lcg") {   // lcg:n:m:seed - n vertices, m distinct pseudo-random edges (deterministic)
         EdgeList g; g.n = I(1); int m = std::min(I(2), g.n * (g.n - 1) / 2); uint64_t st = 0x243f6a8885a308d3ull ^ ((uint64_t) I(3) * 2654435761ull + (uint64_t) g.n * 97 + (uint64_t) m); lcg_next(st);
         std::vector<char> used((size_t) g.n * g.n, 0);
@@ -188,6 +195,13 @@ struct BlobUniverse {
         return g;
     }
 };
+
+// Orientation of the undirected edges as handed to add_edge (it decides boost::source / boost::target of every descriptor):
+// 0 = as generated (low endpoint first), 1 = every edge reversed, 2 = every second edge reversed.
+inline void orient(EdgeList &g, int mode) {
+    if (mode == 0) return;
+    for (size_t i = 0; i < g.e.size(); ++i) if (mode == 1 || (i & 1)) std::swap(g.e[i].first, g.e[i].second);
+}
 
 // ---- union-find ----
 struct UF {
@@ -291,7 +305,8 @@ inline std::vector<double> alphabet(const std::string &name) {
     // A menu is a finite list enumerated completely on every run (a fixed corpus, not a sample drawn at run time).
     if (name.size() >= 4 && name[0] == 'R' && name.find('x') != std::string::npos) { int k = atoi(name.c_str() + 1), cnt = atoi(name.c_str() + name.find('x') + 1); return {-1000.0 - k, (double) cnt}; }
     if (name == "H2") return {1, 100};                 // extreme ratio: adversarial for approximation guarantees
-    if (name == "OH") return {-500};                   // "one heavy edge": m weightings, edge idx weighs 1000, the others 1 + (j mod 2)
+    if (name == "OH") return {-500};
+    if (name == "A2H") return {-600};                  // edge #0 weighs 1000, every other edge ranges over {1,2}: 2^(m-1) weightings                   // "one heavy edge": m weightings, edge idx weighs 1000, the others 1 + (j mod 2)
     if (name == "P") return {1, 2, 4, 8, 16, 32, 64, 128, 256, 512, 1024, 2048, 4096, 8192, 16384, 32768, 65536, 131072, 262144, 524288, 1048576};
     fprintf(stderr, "unknown alphabet %s\n", name.c_str()); exit(2);
 }
@@ -301,6 +316,7 @@ inline bool is_random_menu(const std::vector<double> &A) { return A.size() == 2 
 inline uint64_t num_weightings(const std::vector<double> &A, int m) {
     if (is_random_menu(A)) return (uint64_t) A[1];
     if (A.size() == 1 && A[0] == -500) return (uint64_t) std::max(m, 1);
+    if (A.size() == 1 && A[0] == -600) return m >= 1 ? (1ull << (m - 1)) : 1;
     if (A.size() == 1 && A[0] < 0) return 1;
     return ipow(A.size(), m);
 }
@@ -308,6 +324,7 @@ inline uint64_t num_weightings(const std::vector<double> &A, int m) {
 inline void weighting(const std::vector<double> &A, int m, uint64_t idx, std::vector<double> &w) {
     w.resize(m);
     if (is_random_menu(A)) { int k = (int) (-A[0] - 1000); uint64_t st = 0x9e3779b97f4a7c15ull ^ (idx * 1000003ull + (uint64_t) m * 7919ull); lcg_next(st); for (int i = 0; i < m; ++i) w[i] = 1 + (double) (lcg_next(st) % (uint64_t) k); return; }
+    if (A.size() == 1 && A[0] == -600) { for (int i = 1; i < m; ++i) w[i] = 1 + ((idx >> (i - 1)) & 1); if (m > 0) w[0] = 1000; return; }
     if (A.size() == 1 && A[0] == -500) { for (int i = 0; i < m; ++i) w[i] = 1 + i % 2; if (m > 0) w[idx % (uint64_t) m] = 1000; return; }
     if (A.size() == 1 && A[0] < 0) { int k = (int) -A[0]; for (int i = 0; i < m; ++i) w[i] = 1 + i % k; return; }
     for (int i = 0; i < m; ++i) { w[i] = A[idx % A.size()]; idx /= A.size(); }
